@@ -26,6 +26,12 @@ CHECKS = {
     "C10": dict(engine="E1", level="model_checking", technique="exhaustive enumeration of hook-list shapes x single hook failures, compared with a reference trace predictor",
                 text="Every hook list of <=2 (quick) / <=3 (thorough) top-level entries over 8 hooks (type palette incl. multi-typed) and 4 groups (nested, duplicate), allow_failure unset/true, first issuance + renewal, default run plus every single hook invocation exiting 1; colliding environment variables at four levels; stdin_str, stdin file, stdout/stderr templates; all three challenge types; an overlap probe. The recorder log must equal the predicted trace (order, types, variables, environment precedence, create/edit bracketing, clean hooks).",
                 note="The predictor (vlib/props/c10.py) encodes the flow order stated in the property; account-hook global environment is observed, not judged.", ref="4/C10"),
+    "C06": dict(engine="E4", level="exploration", technique="bounded-exhaustive grid over certificates on disk and renewal settings, evaluated by the real schedule_renewal against a six-line reference",
+                text="12 notAfter values (10 years ago .. 9999-12-31) x 6 renew_delay x 5 random_early_renew, 10 SAN relations (subset, superset, permutation, wildcard vs base, IDN, IPv4, IPv6 spelled differently), missing / unparsable files; every case is loaded through MainEventLoop::new and evaluated 64 times; expected 0 s for missing file or identifier, otherwise a delay inside [notAfter - renew_delay - random_early_renew, notAfter - renew_delay] clamped at 0; no panic; a freshly issued certificate is not due.",
+                note="OpenSSL's wall clock read is not virtualised (3 s tolerance); the jitter is thread_rng's (interval oracle).", ref="4/C06"),
+    "C09": dict(engine="E3+E1", level="model_checking", technique="explicit-state BFS over the reachable states of the real RateLimit under a virtual clock + admission-before-request invariant on explored request logs",
+                text="For every set of 1..2 (quick) / 1..3 (thorough) limits over n in {1,2,3,5,20} x period in {1,2,3,5,10 s}: BFS over arrival-gap histories to depth 6 / 10 or fixpoint, states deduplicated by the ages in the limiter's own query log; window oracle (never n+1 admissions within a period) and progress oracle on every admission sequence. Every request of a bound-1 fault exploration and of account-update / key-change / binding flows must be preceded by an admission, and admission instants of 1..3 certificates contending for one endpoint satisfy the windows.",
+                note="Instants are read at the limiter on the virtual clock, not on the wire.", ref="4/C09"),
     "C07": dict(engine="E1", level="model_checking", technique="stateless exhaustive exploration of CA faults and hook exit codes over consecutive attempts; real run() loop with several certificates under tokio's paused clock",
                 text="Every single fault (CA alphabet + hook exits 1/2/126/SIGKILL) at every choice point of three consecutive attempts; thorough: every pair over the reduced alphabet. Oracles: no panic, no hang, post-operation hooks exactly once with a truthful verdict, >= 1 s (virtual) between a failed attempt and the next. Non-interference: 1..6 certificates sharing account and endpoint with any number failing permanently.",
                 note="Time is tokio's virtual clock (the guard zeroes two thread::sleep constants, counts untouched). Multi-certificate runs do not control task order.", ref="4/C07"),
